@@ -467,19 +467,26 @@ func localAllocatorAdapter(g Geometry) Adapter {
 // ---------------------------------------------------------------------------------------
 // dhcp.Pool (IPv4; gateway = unit 1; optionally reserved head/tail)
 
-func dhcpPoolAdapter(g Geometry, reserved int) Adapter {
+func dhcpPoolAdapter(g Geometry, reserved int) Adapter { return dhcpPoolAdapterGW(g, reserved, 1) }
+
+// dhcpPoolAdapterGW: the gateway is unit gw of the pool network (production pools put it on .1 of the first /24;
+// a wider pool may have it anywhere).
+func dhcpPoolAdapterGW(g Geometry, reserved, gw int) Adapter {
 	n := g.NUnits()
-	usable := without(seq(1, n-2), 1)
+	usable := without(seq(1, n-2), gw)
 	name := "dhcp.Pool"
+	if gw != 1 {
+		name = fmt.Sprintf("dhcp.Pool-gw%d", gw)
+	}
 	if reserved > 0 {
 		// first `reserved` and last `reserved` host addresses are reserved
-		usable = without(seq(1+reserved, n-2-reserved), 1)
+		usable = without(seq(1+reserved, n-2-reserved), gw)
 		name = fmt.Sprintf("dhcp.Pool-res%d", reserved)
 	}
 	return Adapter{Impl: name, Geo: g, Mode: "session", Usable: usable,
 		Ops: []string{"alloc", "release", "relunit"}, subID: macSubID,
 		mk: func() *impl {
-			p, err := dhcp.NewPool(dhcp.PoolConfig{ID: 1, Name: "p", Network: g.CIDR, Gateway: g.UnitIP(1).String(), LeaseTime: time.Hour, ReservedStart: reserved, ReservedEnd: reserved})
+			p, err := dhcp.NewPool(dhcp.PoolConfig{ID: 1, Name: "p", Network: g.CIDR, Gateway: g.UnitIP(gw).String(), LeaseTime: time.Hour, ReservedStart: reserved, ReservedEnd: reserved})
 			if err != nil {
 				panic(err)
 			}
